@@ -1527,6 +1527,24 @@ class Parameter(_ParameterBase):
         values, after the slot values have been set in the inheritance procedure.
         """
 
+    def _shown_value(self, obj):
+        """
+        The value the instance obj shows for this Parameter: its own if
+        one has been set, otherwise the class-level default. A
+        per-instance Parameter object can predate a later class-level
+        assignment, so its own `default` is not what attribute access
+        returns.
+        """
+        try:
+            return obj._param__private.values[self.name]
+        except (AttributeError, KeyError):
+            pass
+        if self.owner is obj:
+            cls_param = type(obj).param.objects(instance=False).get(self.name)
+            if cls_param is not None:
+                return cls_param.default
+        return self.default
+
     def __get__(self, obj, objtype): # pylint: disable-msg=W0613
         """
         Return the value for this Parameter.
@@ -1587,7 +1605,7 @@ class Parameter(_ParameterBase):
             if self.readonly:
                 raise TypeError("Read-only parameter '%s' cannot be modified" % name)
             if self.constant and (is_async or val is Undefined or
-                                  val is not obj._param__private.values.get(name, self.default)):
+                                  val is not self._shown_value(obj)):
                 raise TypeError("Constant parameter '%s' cannot be modified" % name)
             refs = obj._param__private.refs
             if ref is not None:
@@ -1619,10 +1637,10 @@ class Parameter(_ParameterBase):
                 _old = self.default
                 self.default = val
             elif not obj._param__private.initialized:
-                _old = obj._param__private.values.get(self.name, self.default)
+                _old = self._shown_value(obj)
                 obj._param__private.values[self.name] = val
             else:
-                _old = obj._param__private.values.get(self.name, self.default)
+                _old = self._shown_value(obj)
                 if val is not _old:
                     raise TypeError("Constant parameter '%s' cannot be modified" % name)
         else:
@@ -1635,7 +1653,7 @@ class Parameter(_ParameterBase):
                     obj._param__private = _InstancePrivate(
                         explicit_no_refs=type(obj)._param__private.explicit_no_refs
                     )
-                _old = obj._param__private.values.get(name, self.default)
+                _old = self._shown_value(obj)
                 obj._param__private.values[name] = val
         self._post_setter(obj, val)
 
